@@ -93,13 +93,24 @@ def unchanged(o, snap):
     return json_equal(o, deep) and now == ids
 
 
+class OverridingField(Field):
+    """Field subclass overriding serialize(): the override wraps the output of the counted serializer function."""
+
+    def __init__(self, key, counted):
+        Field.__init__(self, key, (lambda v: "constructor-function-output-must-not-be-delivered"), "")
+        self._counted = counted
+
+    def serialize(self, input):
+        return ["sub", self._counted(input)]
+
+
 def make_template(rng, name, nf=None):
     """A type definition: fields declared by a custom serializer (counted, may fail on demand), Field.for_types / the fields()
     factory (identity) or Field.for_value (always the constant). The serializers consult `state`, which each case resets."""
     nf = nf or rng.randint(1, 4)
     keys = rng.sample(gen.IDENT_KEYS, nf)
     sers = {k: rng.choice(list(SERS)) for k in keys}
-    decl = {k: rng.choice(["custom", "custom", "for_types", "factory", "for_value"]) for k in keys}
+    decl = {k: rng.choice(["custom", "custom", "subclass", "for_types", "factory", "for_value"]) for k in keys}
     state = {"calls": {k: 0 for k in keys}, "failing": set(), "exc_class": excs.SerFault}
 
     def make_ser(k):
@@ -118,6 +129,9 @@ def make_template(rng, name, nf=None):
     for k in keys:
         if decl[k] == "custom":
             fields.append(Field(k, make_ser(k), ""))
+        elif decl[k] == "subclass":
+            # an application's Field subclass whose serialize() override does the work (the constructor's function must not be used)
+            fields.append(OverridingField(k, make_ser(k)))
         elif decl[k] == "for_types":
             fields.append(Field.for_types(k, [str, int, float, bool, list, dict, None], ""))
         elif decl[k] == "factory":
@@ -152,7 +166,7 @@ def one(seed, i, has_globals, gfields, res, templates=()):
     mode = rng.choice(["ok", "ok", "fail", "fail", "missing"])
     failing = set()
     missing = None
-    customs = [k for k in keys if decl[k] == "custom"]
+    customs = [k for k in keys if decl[k] in ("custom", "subclass")]
     if mode == "fail" and not customs:
         mode = "ok"
     if mode == "fail":
@@ -199,7 +213,8 @@ def one(seed, i, has_globals, gfields, res, templates=()):
     mt = "c13:m:" + tpl["name"]
     at = "c13:a:" + tpl["name"]
     raised = None
-    expected = {k: (SERS[sers[k]](v) if decl[k] == "custom" else ("const-%s" % k if decl[k] == "for_value" else v)) for k, v in values.items()}
+    expected = {k: (SERS[sers[k]](v) if decl[k] == "custom" else ["sub", SERS[sers[k]](v)] if decl[k] == "subclass" else
+                    ("const-%s" % k if decl[k] == "for_value" else v)) for k, v in values.items()}
     before_len = [0]
     try:
         if kind == "msg_nocontext":
@@ -307,7 +322,7 @@ def one(seed, i, has_globals, gfields, res, templates=()):
                         problems.append("%s: undeclared field %r delivered as %r, logged %r" % (kind, k, m.get(k), v))
                 want_calls = 0 if kind == "write_plain" else 1
                 for k in keys:
-                    if decl[k] != "custom":
+                    if decl[k] not in ("custom", "subclass"):
                         continue
                     if calls[k] != want_calls and not (kind == "write_plain" and k == missing):
                         problems.append("%s: serializer of %r was called %d times for one message" % (kind, k, calls[k]))
